@@ -260,7 +260,11 @@ func vfGenProbe(t *rapid.T, entries []vfEntry, names vfkit.NameSet, pool vfkit.L
 	}
 	base = append(vfkit.Name(nil), base...)
 	pick := func() []byte { return pool[rapid.IntRange(0, len(pool)-1).Draw(t, "l")] }
-	switch rapid.IntRange(0, 8).Draw(t, "probeShape") {
+	switch rapid.IntRange(0, 9).Draw(t, "probeShape") {
+	case 9: // a descendant many labels down (the reverse name of an IPv6 address has 34 labels; a name can have 127)
+		for depth := rapid.IntRange(20, 126).Draw(t, "depth"); len(base) < depth && base.WireLen()+2 <= 255; {
+			base = append(vfkit.Name{[]byte{"0123456789abcdef"[len(base)%16]}}, base...)
+		}
 	case 0: // equal
 	case 1: // child
 		base = append(vfkit.Name{pick()}, base...)
